@@ -92,7 +92,7 @@ where
 
     #[inline]
     fn last(&self) -> Option<T> {
-        if self.count < self.window_len - 1 {
+        if self.count == 0 || self.count < self.window_len - 1 {
             // To ensure we don't return anything when there are not enough samples.
             return None;
         }
